@@ -126,6 +126,10 @@ class _MetaPyTree(type):
             leaves, structure = jtu.tree_flatten(obj, is_leaf=is_flatten_leaftype)
         finally:
             clear_treeflatten_memo()
+        # Checks nested in the leaf type may have failed and been rolled back whilst
+        # flattening, which replaces the memo dicts of the current context: look the
+        # structure memo up again rather than writing into a stale dict.
+        _, _, pytree_memo, _ = get_shape_memo()
         if cls.structure is not None:
             if cls.structure.isidentifier():
                 try:
